@@ -2,6 +2,7 @@ package core
 
 import (
 	"math/rand"
+	"reflect"
 
 	"github.com/junioryono/godi/v4"
 	"github.com/junioryono/godi/v4/verifh/eng"
@@ -66,3 +67,6 @@ func (r *Run) ScopeHandle(i int) *ScopeH {
 
 // AncestorOrSelf reports whether scope a is s or an ancestor of s.
 func (r *Run) AncestorOrSelf(a, s int) bool { return r.ancestorOrSelf(a, s) }
+
+// TypeOf is reflect.TypeOf for a type parameter.
+func TypeOf[T any]() reflect.Type { return reflect.TypeOf((*T)(nil)).Elem() }
